@@ -239,13 +239,13 @@ def r3(ctx: Ctx) -> None:
     read_arg_names: Set[str] = set()
     for rc in reads:
         read_arg_names |= {n for n in sl.origins(rc.ast.args[0] if isinstance(rc.ast, ast.Call) and rc.ast.args else None, rc.id)["names"]
-                           if "." not in n and n != "self"}
+                           if n != "self" and not n.startswith("self.")}
     for s_ in skips:
         brs = [b for b in g.nodes if b.kind == "branch" and b.id in dom[s_.id]]
         inner = max(brs, key=lambda b: len(dom[b.id])) if brs else None
         ok = False
         why = inner.text if inner is not None else "?"
-        if inner is not None and isinstance(inner.ast, ast.Name) and inner.ast.id in read_arg_names:
+        if inner is not None and isinstance(inner.ast, (ast.Name, ast.Attribute)) and dotted(inner.ast) in read_arg_names:
             ok = True  # empty path entry: nothing to read
             why += " (empty path entry)"
         elif inner is not None and isinstance(inner.ast, ast.Compare) and isinstance(inner.ast.ops[0], ast.In) \
